@@ -68,7 +68,8 @@ class Runner:
         ctx.count_case(key, nontrivial, _sample(case))
         ctx.hist("family", case["family"].rstrip("0123456789x"))
         ctx.hist("entry_backend", f"{case['entry']}/{case['backend']}")
-        ctx.hist("idkind", case["idkind"] + ("/" + case["link_type"] if case.get("link_type") else ""))
+        ctx.hist("idkind", case["idkind"] + ("/" + case["link_type"] if case.get("link_type") else "")
+                 + ("/one table" if case.get("one_table") else ""))
         ctx.hist("threshold", "none" if case["thr"] is None else case["thr"][0] + ("" if case["thr"][0] in ("pf", "wf") else f"={case['thr'][1]}"))
         if case["thr"] is not None and case["thr"][0] in ("pf", "wf"):
             tq = X.thr_fraction(case["thr"], case["backend"])
@@ -144,6 +145,21 @@ def generate(ctx: Ctx, R: Runner):
                     break
                 if case is not None:
                     R.add(case, trace=True)
+    # link jobs on ONE pre-concatenated table with its own source_dataset column, 2-3 datasets, the same
+    # unique_id in several datasets (records must still be told apart by (source_dataset, unique_id))
+    for i in range(24 if quick else 150):
+        backend = "duckdb" if i % 2 == 0 else "sqlite"
+        lt = "link_and_dedupe" if (i // 2) % 2 == 0 else "link_only"
+        fam = X.FAMILIES[(5 * i + 3) % len(X.FAMILIES)]
+        for _ in range(30):
+            c = X.build_case(rng, fam, rng.choice([4, 6, 9, 14]), "linker", backend, "link", lt)
+            dsets = {x[0] for x in c["nodes"]}
+            uids = [x[1] for x in c["nodes"]]
+            if len(dsets) >= 2 and len(set(uids)) < len(uids):
+                c["one_table"] = True
+                c["family"] = "onetable_" + fam
+                R.add(c, trace=(i % 3 == 0))
+                break
     # non-dyadic probabilities with the threshold exactly on bridging edges (linker method emphasised)
     nd_combos = [("linker", "duckdb", "int", "dedupe_only"), ("linker", "sqlite", "int", "dedupe_only"),
                  ("linker", "duckdb", "link", "link_and_dedupe"), ("standalone", "duckdb", "int", None),
